@@ -865,6 +865,9 @@ def adapt_typehints(
                 val[n] = adapt_typehints(v, subtypehint, **adapt_kwargs)
         if not serialize:
             val = tuple(val) if typehint_origin in {Tuple, tuple} else set(val)
+        elif typehint_origin not in {Tuple, tuple}:
+            with suppress(TypeError):
+                val = sorted(val)  # sets have no order, make the serialization independent of how the set was built
 
     # List, Iterable or Sequence
     elif typehint_origin in sequence_origin_types:
